@@ -12,7 +12,7 @@ repo = os.environ.get('VERIF_REPO', '/repo')
 exe, err = check.build(repo, c.get('variant', 'asan'), c['driver'], d, sys.stderr)
 if err:
     print(err); sys.exit(2)
-env = dict(os.environ, ASAN_OPTIONS=check.ASAN_ENV, VERIF_DIR=V, VERIF_REPO=repo)
+env = dict(os.environ, ASAN_OPTIONS=check.ASAN_ENV, UBSAN_OPTIONS='print_stacktrace=1', VERIF_DIR=V, VERIF_REPO=repo)
 env.update(spec.get('env', {}))
 r = subprocess.run([exe, '--tier', c['tier'], '--seed', str(c.get('seed', 0))] + d.get('args', []) + ['--replay', c['case']], env=env, cwd=V)
 sys.exit(r.returncode)
